@@ -196,12 +196,28 @@ def loaders():
     return out
 
 
+def base_loaders_first(text, cl):
+    """A quarter of the texts are read by the loaders that resolve nothing before anything else touches them (an application may
+    use both families in one process): what the safe loaders compose and construct afterwards is judged by the same reference."""
+    import yaml
+    from vlib.runner import h64
+    if h64(text) % 4:
+        return
+    cl.add("read-by-base-loaders-first")
+    for BL in [yaml.BaseLoader] + ([yaml.CBaseLoader] if have_c() else []):
+        try:
+            yaml.load(text, Loader=BL)
+        except (yaml.YAMLError, RecursionError):
+            pass
+
+
 def eval_doc(case):
     import yaml
     text, cl = render(case)
     cl = set(cl)
     failures = []
     evals = 0
+    base_loaders_first(text, cl)
     try:
         node = yaml.compose(text)
         # the loaders read the document behind a directive line in half of the cases (a pure function of the text): the
@@ -247,17 +263,6 @@ def check_text(text, node, cl, legs=None):
             cl.add("well-shaped:with-merge")
         if "merge:list>=2" in cl:
             cl.add("well-shaped:with-merge-list>=2")
-    from vlib.runner import h64
-    if h64(text) % 4 == 0:
-        # a quarter of the texts are first read by the loaders that resolve nothing (an application may use both families in one
-        # process): what the safe loaders construct afterwards is judged by the same reference
-        cl.add("read-by-base-loaders-first")
-        for BL in [yaml.BaseLoader] + ([yaml.CBaseLoader] if have_c() else []):
-            evals += 1
-            try:
-                yaml.load(text, Loader=BL)
-            except yaml.YAMLError:
-                pass
     # the reference constructor reads the merge / value keys off the tags of the composed nodes; that the composer gives a plain '<<'
     # ('=') the merge (value) tag - and nothing else - is checked here against the event stream, for every loader leg, after the
     # base-loader pass above
@@ -268,7 +273,9 @@ def check_text(text, node, cl, legs=None):
             want = {}
             for e in events:
                 if isinstance(e, yaml.ScalarEvent) and e.value in ("<<", "="):
-                    plain = e.tag is None and e.implicit[0]
+                    # (the event's own flag says whether the composer is to resolve the text: set for an untagged plain scalar and,
+                    # in this library, for a plain or quoted scalar that carries the non-specific tag '!')
+                    plain = e.tag in (None, "!") and e.implicit[0]
                     t_ = T + {"<<": "merge", "=": "value"}[e.value] if plain else (e.tag if e.tag not in (None, "!") else T + "str")
                     want[(e.value, t_)] = want.get((e.value, t_), 0) + 1
             have = {}
@@ -389,6 +396,8 @@ def eval_text(text):
     """A coverage-guided text (vlib/greybox.py): the first document the pure-Python composer builds is evaluated by the reference
     rules and loaded by both safe loaders."""
     import yaml
+    pre = set()
+    base_loaders_first(text, pre)
     try:
         node = yaml.compose(text, Loader=yaml.SafeLoader)
     except (yaml.YAMLError, RecursionError):
@@ -400,7 +409,7 @@ def eval_text(text):
         return Eval([], ["text", "text:self-referential"], nontrivial=False, ident=text, evals=1)
     # the LibYAML leg takes part when its composer builds the same node graph (texts outside the portable subset are C06's subject)
     legs = [("py", yaml.SafeLoader)]
-    cl = {"text"}
+    cl = {"text"} | pre
     if have_c():
         from vlib.c11_pool import summarize
         try:
